@@ -11,7 +11,7 @@ INT_TY = {'i8': 'TI8', 'u8': 'TU8', 'i16': 'TI16', 'u16': 'TU16', 'i32': 'TI32',
 
 def op_term(toks):
     toks = lsv_normalise(toks)
-    m, name, a = toks[1], toks[2], toks[3:]
+    m, name, a = toks[1], toks[2].split(':')[0], toks[3:]
     M = mode(m)
     if name == 'new': return 'ONew'
     if name == 'from_str': return 'OFromStr %s %s' % (M, blist(a[1]))
